@@ -2,6 +2,7 @@ import VaxisModel.Model.TextField
 import VaxisModel.Model.TextInput
 import VaxisModel.Spec.Editor
 import VaxisModel.Lemmas.Editor
+import VaxisModel.Lemmas.TextInput
 
 /-! C17 — line editors behave like an ideal grapheme line editor.
 
@@ -9,7 +10,7 @@ import VaxisModel.Lemmas.Editor
 `Model.TextField` and `Model.TextInput`; `abs` maps a widget state to the ideal state, `specOf` /
 `meaningOf` give the ideal operation each API call / key binding stands for. -/
 namespace VaxisModel.Props.C17
-open VaxisModel.Model VaxisModel.Spec.Editor VaxisModel.Lemmas.Editor
+open VaxisModel.Model VaxisModel.Spec.Editor VaxisModel.Lemmas.Editor VaxisModel.Lemmas.TextInput
 
 /-- `textfield_refines` (one step): from a state meeting the invariant (`n` = grapheme count,
 cursor within the text) every operation of the exported API — every key event through
@@ -54,5 +55,43 @@ example :
     let ty (g : Nat) : TextField.KeyEv Nat := ⟨false, [g], false, false, false, false, false, false, false, false⟩
     (tfRun (TextField.insertString TextField.new [0, 1])
       [.key bs, .key ce, .key (ty 7), .key cb, .key (ty 8)]).value = [0, 8, 7] := by decide
+
+/-- `textinput_refines` (one step): from a state with the cursor within the content and a
+non-negative scroll offset, every call of the textinput API (`Update` with any event, `SetContent`,
+`Draw` into a window of any width with any prompt) returns — no index panic, no hang —, keeps the
+invariant and is exactly the ideal operation on `(content, cursor)`. -/
+theorem textinput_step_refines {G : Type} (isAlnum : G → Bool) (width : G → Int)
+    (m : TextInput.TI G) (op : TIOp G) (h : TIInv m) :
+    ∃ m', tiStep isAlnum width m op = some m' ∧ TIInv m' ∧
+      tiAbs m' = apply isAlnum (tiAbs m) (tiOpSpec m op) :=
+  tiStep_refines isAlnum width m op h
+
+/-- `textinput_refines`: for all histories from any starting content the model never panics or
+hangs and holds the text and cursor of the ideal editor run on the corresponding ideal operations;
+the cursor stays within the text. -/
+theorem textinput_refines {G : Type} (isAlnum : G → Bool) (width : G → Int)
+    (start : List G) (ops : List (TIOp G)) :
+    ∃ mf sops, tiRun isAlnum width (TextInput.setContent TextInput.new start) ops = some (mf, sops) ∧
+      tiAbs mf = run isAlnum ⟨start, start.length⟩ sops ∧
+      0 ≤ mf.cursor ∧ mf.cursor ≤ mf.content.length := by
+  have h0 : TIInv (TextInput.setContent (TextInput.new : TextInput.TI G) start) :=
+    ⟨by simp [TextInput.setContent], by simp [TextInput.setContent], by simp [TextInput.setContent, TextInput.new]⟩
+  obtain ⟨mf, sops, hr, hinv, habs⟩ := tiRun_refines isAlnum width ops _ h0
+  refine ⟨mf, sops, hr, ?_, hinv.1, hinv.2.1⟩
+  rw [habs]
+  simp [tiAbs, TextInput.setContent, TextInput.new]
+
+/-- `draw_terminates`: the scroll loop of `textinput.Draw` terminates for every window width (since
+the F47 fix), whenever the offset is non-negative and the cursor is within the content. -/
+theorem draw_terminates {G : Type} (width : G → Int) (m : TextInput.TI G) (prompt : List G) (winW : Int)
+    (hoff : 0 ≤ m.offset) (hcur : m.cursor ≤ m.content.length) :
+    (match TextInput.draw width m prompt winW with | .hang => false | _ => true) = true :=
+  draw_not_hang width m prompt winW hoff hcur
+
+/-- Non-vacuity: "ab cd" + Ctrl+w deletes the last word; a 4-column window draws. -/
+example :
+    (tiRun (fun g : Nat => g < 2) (fun _ => 1) (TextInput.setContent TextInput.new [0, 1, 5, 0, 1])
+      [.ev (.key "Ctrl+w" true false false []), .draw [] 4]).map (fun r => (r.1.content, r.1.cursor))
+      = some ([0, 1, 5], 3) := by decide
 
 end VaxisModel.Props.C17
